@@ -326,3 +326,19 @@ def A_train_loss(qual, coqname, pad_name='pad'):
     body = block(b[3:], {}, False)
     return (f'Definition {coqname} (expected_length : option Q) (masked : list Q) : Q :=\n  {body}.')
   return emit
+
+
+
+def A_no_process_dependence(coqname, allow_np_random=False):
+  """Fail-closed recogniser: the module does not call hash()/id() and does not touch time, uuid, random, secrets,
+  os.environ (and np.random unless the module's training-time augmentation legitimately does)."""
+  def emit(tree):
+    for node in ast.walk(tree):
+      if isinstance(node, ast.Call) and isinstance(node.func, ast.Name) and node.func.id in ('hash', 'id'):
+        _unsupported(f'module calls {node.func.id}(): the result may differ between processes')
+      if isinstance(node, ast.Attribute) and isinstance(node.value, ast.Name) and node.value.id in ('time', 'uuid', 'random', 'secrets'):
+        _unsupported(f'module uses {node.value.id}.{node.attr}')
+      if isinstance(node, ast.Attribute) and D(node) in ('os.environ', 'os.getpid') + (() if allow_np_random else ('np.random',)):
+        _unsupported(f'module uses {D(node)}')
+    return f'Definition {coqname} : bool := true.'
+  return emit
